@@ -251,6 +251,8 @@ def check_property(prop, tier, seed, replay=None):
         if replay:
             payload = json.load(open(replay))
             cases = payload.get("cases") or ([payload["case"]] if "case" in payload else [])
+            for c in cases:
+                c.setdefault("meta", {})
             streams = [("replay", cases)]
         else:
             streams = [("corpus", prop.corpus_cases()), ("gen", prop.cases(rng, tier))]
@@ -310,7 +312,7 @@ def check_property(prop, tier, seed, replay=None):
                         pre = stream[max(0, i - n): i + 1]
                         rr = C.run_harness([strip_meta(c) for c in pre])
                         if prop.oracle(case, rr[-1]):
-                            history = [strip_meta(c) for c in pre]
+                            history = [dict(c) for c in pre]
                             break
                         if n >= i:
                             break
@@ -326,7 +328,7 @@ def check_property(prop, tier, seed, replay=None):
             except Exception as ex:      # shrinking is best effort
                 notes.append("shrinking failed: %r" % ex)
         payload = dict(property=pid, kind="failing-input", source=source, description=desc,
-                       case=strip_meta(case), implementation_result=hres.get("r"), broken=broken)
+                       case=dict(case), implementation_result=hres.get("r"), broken=broken)
         if original is not None:
             payload["shrunk_from"] = original
         if history is not None:
